@@ -296,3 +296,50 @@ def diff_lines(a_path, b_path):
         if x != y:
             res.append((i, x, y))
     return res
+
+
+def line_campaign(ctx, sub, seed, count, sigfn, theorem, extra_args=(), key_tokens=3):
+    """Generic campaign for stateless one-line-per-call protocols (names, time, ...):
+    harness generates ops + impl outputs (+ ORACLE lines), driver computes the model outputs."""
+    ops, imp, mod = ctx.path(sub + ".ops"), ctx.path(sub + ".impl"), ctx.path(sub + ".model")
+    rc, out = harness([sub, "--seed", seed, "--count", count, "--ops", ops, "--impl", imp] + list(extra_args))
+    if rc != 0:
+        ctx.undischarged.append("harness %s campaign crashed: %s" % (sub, out[-300:]))
+        return 0, {}, []
+    _, hist, oracle = parse_stats(out)
+    driver([sub], ops, mod)
+    diffs = diff_lines(imp, mod)
+    ops_lines = open(ops).read().splitlines()
+    flagged = set()
+    for msg in oracle[:50]:
+        line = " ".join(msg.split(" ")[:key_tokens])
+        flagged.add(line)
+        add_violation(ctx, sigfn(msg), msg,
+                      "# %s violation found by the property oracle on the implementation\n# %s\n# replay: harness %s --replay <this file> --ops o --impl i\n%s\n" % (ctx.pid, msg, sub, line))
+    for (ln, a, b) in diffs[:500]:
+        if ln < len(ops_lines) and any(ops_lines[ln].startswith(f) for f in flagged):
+            continue
+        ctx.disagreements.append({"origin": "%s seed %d line %d" % (sub, seed, ln), "level": "O",
+                                  "op": ops_lines[ln] if ln < len(ops_lines) else "?", "implementation": a, "model": b,
+                                  "theorem": theorem})
+        if len(ctx.disagreements) >= 5:
+            break
+    return len(ops_lines), hist, ops_lines[:6]
+
+
+def line_corpus(ctx, sub, theorem):
+    cdir = os.path.join(VERIF, "corpus", ctx.pid)
+    total = 0
+    if os.path.isdir(cdir):
+        for name in sorted(os.listdir(cdir)):
+            if not name.endswith("." + sub):
+                continue
+            ops, imp, mod = ctx.path("corpus.ops"), ctx.path("corpus.impl"), ctx.path("corpus.model")
+            lines = [l for l in open(os.path.join(cdir, name)).read().splitlines() if l and not l.startswith("#")]
+            open(ops, "w").write("\n".join(lines) + "\n")
+            harness([sub, "--replay", ops, "--ops", ops, "--impl", imp])
+            driver([sub], ops, mod)
+            for (ln, a, b) in diff_lines(imp, mod):
+                ctx.disagreements.append({"origin": "corpus/" + name, "level": "O", "op": lines[ln], "implementation": a, "model": b, "theorem": theorem})
+            total += len(lines)
+    return total
